@@ -107,6 +107,9 @@ def run(res):
     E = {"w": 200, "h": 120, "n": 6, "bits": 8, "content": "screen", "cseed": 6, "sets": {"enc_mode": 6, "logical_processors": 3, "tile_columns": 1}}
     Fc = {"w": 64, "h": 64, "n": 8, "bits": 8, "content": "motion", "cseed": 2, "sets": {"enc_mode": 8, "logical_processors": 2, "use_cpu_flags": 0}}
     B128 = {"w": 512, "h": 336, "n": 2, "bits": 8, "content": "motion", "cseed": 5, "sets": {"enc_mode": 4, "logical_processors": 4, "enable_tpl_la": 1}}
+    # presets on different sides of the reference-count boundaries (<= M4: 4 references, M5: 2, >= M6: 1), all 64x64 superblocks
+    P5 = {"w": 96, "h": 64, "n": 8, "bits": 8, "content": "pan", "cseed": 11, "sets": {"enc_mode": 5, "logical_processors": 2, "qp": 35, "enable_tpl_la": 1}}
+    P4 = {"w": 64, "h": 64, "n": 6, "bits": 8, "content": "pan", "cseed": 12, "sets": {"enc_mode": 4, "logical_processors": 2, "qp": 40, "enable_tpl_la": 1}}
     D8 = dict(st["s8"], threads=1)
     D8t = dict(st["s8"], threads=3)
     D10 = dict(st["s10"], threads=1)
@@ -122,6 +125,9 @@ def run(res):
         ("enc_dec_mt", [(C, 0), (D8t, 0)], None),
         ("triple", [(A, 0), (C, 60), (D10, 20)], None),
         ("pair_asm", [(A, 0), (Fc, 40)], None),
+        ("fast_then_slow_preset", [(A, 0), (P5, 200)], None),
+        ("slow_then_fast_preset", [(P5, 0), (A, 200)], None),
+        ("three_presets", [(A, 0), (P5, 150), (P4, 300)], None),
         ("concinit_pair", [(A, 0), (D, 0)], {"differs": "concurrent_init"}),
         ("concinit_triple", [(A, 0), (D, 0), (E, 0)], {"differs": "concurrent_init"}),
         ("stagger_pair", [(A2, 0), (A, 150)], stag),
